@@ -149,6 +149,8 @@ pub struct SessionCfg {
     pub filtered_out: Vec<usize>,
     /// A client-side (monotonic) timestamp generator is configured.
     pub timestamp_generator: bool,
+    /// SessionBuilder::auto_await_schema_agreement(false).
+    pub no_auto_schema_agreement: bool,
 }
 
 impl Default for SessionCfg {
@@ -171,6 +173,7 @@ impl Default for SessionCfg {
             initial_keyspace: None,
             filtered_out: Vec::new(),
             timestamp_generator: false,
+            no_auto_schema_agreement: false,
         }
     }
 }
@@ -230,6 +233,9 @@ pub async fn build_session(cfg: &SessionCfg) -> Result<Session, NewSessionError>
         Some((dc, None)) => b.prefer_datacenter(dc.clone()),
         None => b,
     };
+    if cfg.no_auto_schema_agreement {
+        b = b.auto_await_schema_agreement(false);
+    }
     if cfg.timestamp_generator {
         b = b.timestamp_generator(Arc::new(scylla::policies::timestamp_generator::MonotonicTimestampGenerator::new()));
     }
